@@ -343,30 +343,6 @@ def streamdata_ackfreq(r, idx):
     return {"cfg": cfg, "steps": steps, "tag": {"family": "streamdata-ackfreq", "idx": idx, "fates": False}}
 
 
-def streamdata_ackfreq_hold(r, idx, n, hold_us):
-    """Systematic companion of streamdata_ackfreq: a window-limited upload, the path's latency jumps
-    from 10 to 110 ms (each of the next RTT samples moves the estimate by more than a fifth: three or
-    four ACK_FREQUENCY requests in consecutive packets, next to stream data), and exactly one datagram -
-    the n-th after the jump - is held back by hold_us: little enough not to be declared lost."""
-    cfg = base_cfg(r, server={"idle_ms": 30000}, client={"idle_ms": 30000})
-    for side in ("server", "client"):
-        cfg[side]["ack_freq"] = True
-        cfg[side]["ack_freq_threshold"] = r.choice([0, 1, 2])
-        cfg[side]["ack_freq_max_delay_ms"] = 400
-    cfg["client"]["send_window"] = r.choice([3000, 6000, 12000])
-    cfg["latency_us"] = 10000
-    steps = [{"do": "connect", "n": 1}, {"do": "run_until", "what": "connected", "max_us": 20000000}]
-    w = {"do": "app", "n": 1, "c": 0, "streams": [{"dir": 1, "size": 60000, "chunk": r.choice([700, 1200, 5000]), "finish": True}],
-         "read_max": 1 << 20, "ordered": True, "maxsize": 60000}
-    steps.append(w)
-    steps.append({"do": "run", "us": r.choice([60000, 100000])})
-    steps.append({"do": "set", "key": "latency_us", "v": 110000})
-    steps.append({"do": "fates", "dir": "c2s", "list": ["ok"] * n + ["delay:%d" % hold_us]})
-    steps.append({"do": "run_until", "what": "apps", "max_us": 120000000})
-    steps.append({"do": "run", "us": 300000})
-    return {"cfg": cfg, "steps": steps, "tag": {"family": "streamdata-ackfreq-hold", "idx": idx, "fates": False, "n": n, "hold": hold_us}}
-
-
 def _ackfreq_sparse(r, idx, cfg):
     """A quiet sender on a path whose latency has just jumped: every acknowledgement moves the RTT
     estimate and the next packet carries a new ACK_FREQUENCY request next to a little stream data; single
@@ -434,6 +410,28 @@ def streamdata_zerortt(r, idx):
 
 # ------------------------------------------------------------------------------------------------
 # C07
+
+def antiamp_retry_move(r, idx):
+    """A Retry token used from another address: the client's Initial is answered with a Retry, and
+    while that is on its way the client's address changes - to another host with the same port, the
+    same host with another port, or both (an attacker who got a token at its own address and spoofs a
+    victim's).  The token proves nothing about the new address: the large server flight must stay
+    within three times what arrived from there."""
+    cfg = base_cfg(r, server={"idle_ms": 8000}, client={"idle_ms": 8000})
+    cfg["incoming"] = "retry"
+    cfg["sf_size"] = r.choice([4000, 8000, 12000])
+    cfg["max_datagrams"] = r.choice([1, 2, 10])
+    cfg["latency_us"] = 10000
+    steps = [{"do": "connect", "n": 1},
+             {"do": "run", "us": r.choice([10001, 12000, 19000])},       # the Retry is in flight
+             {"do": "migrate", "n": 1, "addr": r.choice([[3, 1, 53840], [1, 1, 50009], [3, 1, 50009], [1, 2, 53840]])}]
+    if r.random() < 0.5:
+        # the victim never answers
+        steps.append({"do": "run", "us": 10000})
+        steps.append({"do": "blackhole", "n": 1})
+    steps.append({"do": "run", "us": 6000000})
+    return {"cfg": cfg, "steps": steps, "tag": {"family": "antiamp-retry-move", "idx": idx}}
+
 
 def antiamp_script(r, idx, fate_vec=None):
     fam = r.choice(["handshake", "handshake", "handshake", "vanish", "migrate", "resets", "shortinit", "retry"])
